@@ -121,11 +121,82 @@ func (c *fileCtx) newTmp(prefix string) *ast.Ident {
 
 // rewrite performs all rewrites on the file.
 func (c *fileCtx) rewrite() {
+	// 0. select statements become a switch over vsched.SelWait (see shim/vsched/chan.go); done first and top-down, so
+	// that the communication clauses are gone before the channel operations inside the bodies are rewritten
+	astutil.Apply(c.file, func(cur *astutil.Cursor) bool {
+		n, ok := cur.Node().(*ast.SelectStmt)
+		if !ok {
+			return true
+		}
+		if _, labelled := cur.Parent().(*ast.LabeledStmt); labelled {
+			fatal("%s: labelled select statement is not modelled", c.pos(n))
+		}
+		c.needVS = true
+		stats["select"]++
+		selID := c.newTmp("sel")
+		var pre []ast.Stmt
+		var clauses []ast.Stmt
+		hasDefault := false
+		idx := 0
+		for _, cl := range n.Body.List {
+			cc := cl.(*ast.CommClause)
+			if cc.Comm == nil {
+				hasDefault = true
+				clauses = append(clauses, &ast.CaseClause{List: nil, Body: cc.Body})
+				continue
+			}
+			chID := c.newTmp("ch")
+			var body []ast.Stmt
+			switch st := cc.Comm.(type) {
+			case *ast.SendStmt:
+				valID := c.newTmp("val")
+				pre = append(pre, &ast.AssignStmt{Lhs: []ast.Expr{chID, valID}, Tok: token.DEFINE, Rhs: []ast.Expr{st.Chan, st.Value}})
+				pre = append(pre, &ast.ExprStmt{X: call(sel("vsched", "SelSend"), ast.NewIdent(selID.Name), ast.NewIdent(chID.Name), ast.NewIdent(valID.Name))})
+			case *ast.ExprStmt:
+				u, ok := st.X.(*ast.UnaryExpr)
+				if !ok || u.Op != token.ARROW {
+					fatal("%s: unexpected communication clause", c.pos(st))
+				}
+				pre = append(pre, &ast.AssignStmt{Lhs: []ast.Expr{chID}, Tok: token.DEFINE, Rhs: []ast.Expr{u.X}})
+				pre = append(pre, &ast.ExprStmt{X: call(sel("vsched", "SelRecv"), ast.NewIdent(selID.Name), ast.NewIdent(chID.Name))})
+			case *ast.AssignStmt:
+				u, ok := st.Rhs[0].(*ast.UnaryExpr)
+				if !ok || u.Op != token.ARROW || len(st.Rhs) != 1 {
+					fatal("%s: unexpected communication clause", c.pos(st))
+				}
+				pre = append(pre, &ast.AssignStmt{Lhs: []ast.Expr{chID}, Tok: token.DEFINE, Rhs: []ast.Expr{u.X}})
+				pre = append(pre, &ast.ExprStmt{X: call(sel("vsched", "SelRecv"), ast.NewIdent(selID.Name), ast.NewIdent(chID.Name))})
+				fn := "SelRecvVal"
+				if len(st.Lhs) == 2 {
+					fn = "SelRecvDone"
+				}
+				body = append(body, &ast.AssignStmt{Lhs: st.Lhs, Tok: st.Tok, Rhs: []ast.Expr{call(sel("vsched", fn), ast.NewIdent(selID.Name), ast.NewIdent(chID.Name))}})
+				if st.Tok == token.DEFINE {
+					// a received value that the clause body does not use must not become an "unused variable" error
+					for _, l := range st.Lhs {
+						if id, ok := l.(*ast.Ident); ok && id.Name != "_" {
+							body = append(body, &ast.AssignStmt{Lhs: []ast.Expr{ast.NewIdent("_")}, Tok: token.ASSIGN, Rhs: []ast.Expr{ast.NewIdent(id.Name)}})
+						}
+					}
+				}
+			default:
+				fatal("%s: unexpected communication clause", c.pos(cc.Comm))
+			}
+			clauses = append(clauses, &ast.CaseClause{List: []ast.Expr{&ast.BasicLit{Kind: token.INT, Value: strconv.Itoa(idx)}}, Body: append(body, cc.Body...)})
+			idx++
+		}
+		def := "false"
+		if hasDefault {
+			def = "true"
+		}
+		first := &ast.AssignStmt{Lhs: []ast.Expr{selID}, Tok: token.DEFINE, Rhs: []ast.Expr{call(sel("vsched", "NewSelect"), ast.NewIdent(def))}}
+		sw := &ast.SwitchStmt{Tag: call(sel("vsched", "SelWait"), ast.NewIdent(selID.Name)), Body: &ast.BlockStmt{List: clauses}}
+		cur.Replace(&ast.BlockStmt{List: append(append([]ast.Stmt{first}, pre...), sw)})
+		return true
+	}, nil)
+
 	// 1. import-level checks and selector rewrites
 	ast.Inspect(c.file, func(n ast.Node) bool {
-		if s, ok := n.(*ast.SelectStmt); ok {
-			fatal("%s: select statement is not modelled", c.pos(s))
-		}
 		se, ok := n.(*ast.SelectorExpr)
 		if !ok {
 			return true
